@@ -68,11 +68,13 @@ def plan(seed, subbatch):
             "ops": [{"op": "new", "preload": pre}] + ops + [{"op": "check"}], "fired": dict(fired)}
 
 
-def _members(cfg):
+def _members(cfg, shared=None):
+    """`shared`: the caller's configuration dict, ONE object used for every Hexital built from it (a settings
+    list kept by the caller and used for the live object and for the batch object alike)."""
     fn, args = cfg["fn"], cfg["args"]
     members = [build(h) for h in HELPERS]
     if cfg.get("amorph_form") == "dict":
-        members.append({"analysis": fn, "args": dict(args)})
+        members.append(shared if shared is not None else {"analysis": fn, "args": dict(args)})
     else:
         members.append(build({"cls": "Amorph", "analysis": fn, "params": args, "common": {}}))
     return members
@@ -89,6 +91,7 @@ def execute(trace, ctx=None):
         fn = FUNCS[fn_name]
         delivered = []
         hx = None
+        shared = {"analysis": fn_name, "args": dict(args)} if cfg.get("amorph_form") == "dict" else None
         ledger = {}  # candle position -> answer recorded when it was the newest candle
         values_seen = set()
         later_checked = 0
@@ -118,7 +121,7 @@ def execute(trace, ctx=None):
                 rows = op.get("preload") or []
                 delivered.extend(rows)
                 try:
-                    hx = run.call(len(rows), Hexital, "sim", mk_candles(rows), _members(cfg), timeframe=cfg.get("tf"))
+                    hx = run.call(len(rows), Hexital, "sim", mk_candles(rows), _members(cfg, shared), timeframe=cfg.get("tf"))
                     run.call(len(rows) * 4, hx.calculate)
                 except LibError as e:
                     wrapper_failure(e, kind)
@@ -202,7 +205,7 @@ def execute(trace, ctx=None):
                     raise Violation("amorph-live", fn_name, "early" if j < 10 else "later",
                                     {"i": j, "live": live[j], "direct": want[j], "n": n, "args": args})
                 try:
-                    bt = Hexital("twin", mk_candles(delivered), _members(cfg), timeframe=cfg.get("tf"))
+                    bt = Hexital("twin", mk_candles(delivered), _members(cfg, shared), timeframe=cfg.get("tf"))
                     bt.calculate()
                     batch = bt.indicator(name).as_list()
                 except Exception as exc:  # noqa: BLE001
